@@ -64,8 +64,8 @@ var c19Forms = []c19Form{
 
 	// ---- bindings documented as changing a registry or a layout
 	{Name: "tag.delete", API: "tag.delete", Mut: true, Rep: true, Code: `tag.delete(C.DEL); out("tag.delete done")`},
-	{Name: "manifest:delete/head", API: "manifest:delete", Mut: true, Rep: true, Code: `local m = manifest.head(C.DEL3); m:delete(); out("m:delete done")`},
-	{Name: "manifest:delete/list", API: "manifest:delete", Mut: true, Code: `local m = manifest.getList(C.DEL3); m:delete(); out("m:delete list done")`},
+	{Name: "manifest:delete/head", API: "manifest.delete", Mut: true, Rep: true, Code: `local m = manifest.head(C.DEL3); m:delete(); out("m:delete done")`},
+	{Name: "manifest:delete/list", API: "manifest.delete", Mut: true, Code: `local m = manifest.getList(C.DEL3); m:delete(); out("m:delete list done")`},
 	{Name: "manifest.put", API: "manifest.put", Mut: true, Rep: true, Code: `local m = manifest.get(C.SRC); manifest.put(m, C.REPO .. ":c19put-" .. C.T); out("manifest.put done")`},
 	{Name: "manifest:put", API: "manifest.put", Mut: true, Code: `local m = manifest.getList(C.SRC); m:put(C.REPO .. ":c19mput-" .. C.T); out("m:put done")`},
 	{Name: "manifest:put/export", API: "manifest.put", Mut: true, Tier: 1, Code: `local m = manifest.get(C.SRC):export(); m:put(C.NEWREPO .. ":c19eput-" .. C.T); out("m:export():put done")`},
